@@ -378,13 +378,9 @@ def e2e_case(exe, e, kept, rundir, cwd, rng):
             raise vlib.MachineryError("STORE probe of case %d failed unexpectedly: %s" % (e["id"], out[-800:]))
         return "ok", "", eff
     finally:
-        if proc.poll() is None:      # SIGTERM = the daemon's own shutdown path; SIGKILL if it lingers
-            proc.terminate()
-            try:
-                proc.wait(timeout=6)
-            except subprocess.TimeoutExpired:
-                proc.kill()
-                proc.wait()
+        if proc.poll() is None:      # scratch daemon: no orderly shutdown needed
+            proc.kill()
+            proc.wait()
         logf.close()
 
 
